@@ -1,6 +1,7 @@
 import UberjobModel.Lemmas.CacheHistory
 import UberjobModel.Lemmas.ExecFinal
 import UberjobModel.Lemmas.ExecFault
+import UberjobModel.Lemmas.ExecProd
 /-!
 # C08 — a run cut short at any point leaves stores that the next run repairs correctly
 
@@ -108,6 +109,23 @@ theorem C08_end_to_end_fault {P : Input} {w0 : World} {F : Option Int} {c0 : Int
   intro xc
   obtain ⟨hD1, _, I⟩ := xinv_reach_eff S eff h
   exact ⟨I.good, I.written, I.untouched, hD1⟩
+
+open Uberjob.Phys Uberjob.Exec in
+/-- **With producers that rewrite dependent sources** (`Model/ExecProd.lean`): wherever a run is cut — after any prefix of
+    any schedule, failures included, with some sources already refreshed and others not — `Good` holds: every stored value
+    the next run would treat as up to date equals its from-scratch value with respect to what the sources hold at that
+    moment.  Every store touched so far has a modified time of this run, newer than everything upstream of it that was
+    touched. -/
+theorem C08_end_to_end_cut_prod {P : Input} {pr : Nat → Option Nat} {w0 : World} {F : Option Int} {c0 : Int}
+    (S : SetupP P pr w0 F c0) {cfg : Engine.Cfg} {s : Engine.St} (h : Engine.Reach (engineGraph P) cfg s) :
+    let xc := execOrderP P pr (initX w0 c0) s.okd
+    Good P.toLPlan xc.w ∧
+    (∀ i, code (.write i) ∈ s.okd → xc.w.content i = some (FS P.toLPlan xc.w i)) ∧
+    (∀ j d, pr j = some d → code (.orig j) ∈ s.okd → xc.w.content d = some (FS P.toLPlan xc.w j)) ∧
+    (∀ i, ¬ Tch pr s.okd i → xc.w.st i = w0.st i) := by
+  intro xc
+  have I := xinvP_reach S h
+  exact ⟨I.good, I.writtenOk, I.prodOk, I.untouched⟩
 
 /-- with `eff` = "never", the effects are exactly those of the completed nodes (an example run: the write of node 7 fails
     with and without effect) -/
